@@ -15,9 +15,8 @@ import (
 	"verif/engine/sx"
 )
 
-const (
-	verifRoot = "/verif"
-)
+// verifRoot is the directory holding checks/, harness/, evidence/ ... (the working directory of ./check).
+var verifRoot = "/verif"
 
 var repoRoot = "/repo"
 
@@ -71,6 +70,11 @@ func main() {
 	}
 	if r := os.Getenv("VERIF_REPO"); r != "" {
 		repoRoot = r
+	}
+	if wd, err := os.Getwd(); err == nil {
+		if _, err := os.Stat(filepath.Join(wd, "checks")); err == nil {
+			verifRoot = wd
+		}
 	}
 	switch os.Args[1] {
 	case "check":
